@@ -1,5 +1,6 @@
 __all__ = ["AppendOutput"]
 
+import os
 from dataclasses import dataclass
 
 from ...format import Mode
@@ -32,6 +33,16 @@ from ._bucket import BucketOutput
 default_array_size = Multiply(IntegerLiteral(1024), IntegerLiteral(1024))
 
 
+def _verif_default_array_size() -> Expression:
+    # Verification hook (inactive unless TENSORA_VERIF=1): lets the initial capacity of growable
+    # output arrays be made small so that the growth paths run on tiny inputs.
+    if os.environ.get("TENSORA_VERIF") == "1":
+        capacity = os.environ.get("TENSORA_VERIF_INITIAL_CAPACITY")
+        if capacity:
+            return IntegerLiteral(int(capacity))
+    return default_array_size
+
+
 @dataclass(frozen=True, slots=True)
 class AppendOutput(Output):
     output: ie_ast.Tensor
@@ -41,6 +52,7 @@ class AppendOutput(Output):
         return previous_layer_pointer(self.output.id, self.output.order)
 
     def write_declarations(self, kernel_type: KernelType):
+        default_array_size = _verif_default_array_size()
         source = SourceBuilder("Output initialization")
 
         target_name = self.output.name
